@@ -105,8 +105,8 @@ int rt_binary_sem = 0;
 FILE *rt_log;
 
 static const char *kind_names[] = { "none", "ld", "st", "cas", "rmw", "fwait", "fwake", "d", "c",
-	"p", "pd", "v", "region", "lock", "unlock", "exit" };
-const char *rt_kind_name (int k) { return (k >= 0 && k <= OP_EXIT) ? kind_names[k] : "?"; }
+	"p", "pd", "v", "region", "lock", "unlock", "exit", "plain" };
+const char *rt_kind_name (int k) { return (k >= 0 && k <= OP_PLAIN) ? kind_names[k] : "?"; }
 
 /* sections holding the writable statics of the code under test (renamed by objcopy) */
 extern char __start_uutdata[] __attribute__ ((weak)), __stop_uutdata[] __attribute__ ((weak));
@@ -557,9 +557,20 @@ void __tsan_func_entry (void *pc) {
 		park (OP_DELAY, NULL, 0, 0, 0, 0, "delay");
 }
 void __tsan_func_exit (void) { struct fiber *f = G ? G->cur : NULL; if (f && f->fdepth > 0) f->fdepth--; }
+int rt_plain_steps;
+static void plain_step (void *a) {
+	struct fiber *f = G->cur;
+	const char *c = a;
+	if (!rt_plain_steps || f->noyield) return;
+	if (c >= G->arena && c < G->arena + ARENA_SIZE) park (OP_PLAIN, a, 0, 0, 0, 0, NULL);
+	else if (!(c >= f->stk && c < f->stk + STK_SIZE)) {
+		int i;
+		for (i = 0; i < G->nf; i++) if (c >= G->f[i].stk && c < G->f[i].stk + STK_SIZE) { park (OP_PLAIN, a, 0, 0, 0, 0, NULL); break; }
+	}
+}
 #define PLAIN(n) \
-	void __tsan_read##n (void *a) { if (G && G->cur) { check_access (a, n, 0, 0); hb_access (a, n, 0); if (rt_on_access) rt_on_access (a, n, 0, rt_self ()); } } \
-	void __tsan_write##n (void *a) { if (G && G->cur) { check_access (a, n, 1, 0); hb_access (a, n, 1); if (rt_on_access) rt_on_access (a, n, 1, rt_self ()); } } \
+	void __tsan_read##n (void *a) { if (G && G->cur) { plain_step (a); check_access (a, n, 0, 0); hb_access (a, n, 0); if (rt_on_access) rt_on_access (a, n, 0, rt_self ()); } } \
+	void __tsan_write##n (void *a) { if (G && G->cur) { plain_step (a); check_access (a, n, 1, 0); hb_access (a, n, 1); if (rt_on_access) rt_on_access (a, n, 1, rt_self ()); } } \
 	void __tsan_unaligned_read##n (void *a) { __tsan_read##n (a); } \
 	void __tsan_unaligned_write##n (void *a) { __tsan_write##n (a); }
 PLAIN (1) PLAIN (2) PLAIN (4) PLAIN (8) PLAIN (16)
@@ -800,6 +811,7 @@ void rt_init (void) {
 	G->arena = mmap (0, ARENA_SIZE + 4096, PROT_READ | PROT_WRITE, MAP_PRIVATE | MAP_ANONYMOUS, -1, 0);
 	G->now = RT_T0;
 	ignored_oracles = getenv ("VERIF_IGNORE");
+	rt_plain_steps = getenv ("VERIF_PLAIN") != NULL;
 	load_symbols ();
 	G->altstack = mmap (0, 65536, PROT_READ | PROT_WRITE, MAP_PRIVATE | MAP_ANONYMOUS, -1, 0);
 	ss.ss_sp = G->altstack; ss.ss_size = 65536; ss.ss_flags = 0;
